@@ -1,6 +1,6 @@
 (* C10 -- List markers determine list nesting (partial: see MANIFEST level text). *)
 From Rimu Require Import Base Unicode Regex RegexAnalysis RegexParse Str Types Tables Guards State Inline Block
-  Frame FrameBlock FrameInst OptionsLemmas MiscLemmas MoreLemmas Plain TableFacts RegexSem MatchLemmas Placeholder TaintInline NoRaise NoRaiseTop Taint.
+  Frame FrameBlock FrameInst OptionsLemmas MiscLemmas MoreLemmas Plain TableFacts RegexSem MatchLemmas Placeholder TaintInline NoRaise NoRaiseTop Taint Locality.
 
 (* bulleted, numbered and definition items produce ul/ol/dl with li or dt/dd (the generated list table) *)
 Theorem C10_list_table :
@@ -57,3 +57,12 @@ Theorem C10_items_well_formed : forall rd s, rdok rd ->
   match matchItem rd s with Ok ((Some it, _), _) => item_ok it | _ => True end.
 Proof. exact matchItem_items. Qed.
 Print Assumptions C10_items_well_formed.
+
+(* a list that ends before the end of the input -- its last item is followed by something that closes it -- is rendered the
+   same, with the same session, whatever comes after that: suffix-locality of the whole list fixpoint (renderList, the item
+   loop with its blank-line counting and attached blocks, nested lists) *)
+Theorem C10_list_independent_of_what_follows : forall fuel suf doc n it rd o nn rd' s s',
+  renderList fuel doc n it rd s = Ok ((o, nn, rd'), s') -> rd' <> [] ->
+  renderList fuel doc n it (rd ++ suf) s = Ok ((o, nn, rd' ++ suf), s').
+Proof. intros fuel suf doc n. exact (proj1 (lists_suffix fuel suf doc n)). Qed.
+Print Assumptions C10_list_independent_of_what_follows.
